@@ -11,11 +11,13 @@
 #include "ref/icalio.h"
 #include "ref/rfc5545.h"
 #include "ref/rrgram.h"
+#include "ref/c05_common.h"
 
 #define MAXOCC	200
 
 static int nanchors = 8;
 static int terms_full = 0;
+static int ckpt_pass = 1;	/* --opt ckpt=0 switches the write-out / read-again pass off */
 
 static int64_t
 inst_secs(echs_instant_t i)
@@ -226,6 +228,45 @@ run_case(const struct rg_rule_s *g, const struct term_s *tm, rf_dt t0, const int
 		}
 	}
 	if (t) free_echs_task(t);
+	/* the daemon also checkpoints: after k occurrences the task is written out, later read again and goes on.
+	 * What it goes on with must be what the uninterrupted stream delivers from k on (only judged when the
+	 * uninterrupted stream agreed with the reference, so that findings of the rule itself are not repeated) */
+	if (!bad && ckpt_pass && !adm && nimp >= 2) {
+		static const int ks[] = {1, 3, 70};
+		for (size_t q = 0; q < sizeof(ks) / sizeof(*ks); q++) {
+			const int k = ks[q];
+			static char back[8192];
+			echs_task_t t2;
+			ssize_t bn;
+			if (k >= nimp) break;
+			if ((t = ical_task1(text)) == NULL || t->strm == NULL) break;
+			for (int i = 0; i < k; i++) (void)echs_evstrm_pop(t->strm);
+			bn = c05_seria(back, sizeof(back), &t, 1, C05_FORM_ECHSD);
+			free_echs_task(t);
+			t = NULL;
+			t2 = bn > 0 ? ical_task1(back) : NULL;
+			if (t2 == NULL || t2->strm == NULL) {
+				snprintf(sig, sizeof(sig), "checkpointed/lost/%s/%s", g->shape, tm->name);
+				vd_viol(sig, "after %d of %d occurrences the task is written out and cannot be read again", k, nimp);
+				if (t2) free_echs_task(t2);
+				break;
+			} else {
+				int adm3 = 0, beyond3 = 0;
+				const int n3 = drain(t2->strm, imp2, tend, 0, &beyond3, &adm3, t0.allday);
+				free_echs_task(t2);
+				/* a stream that was cut by the window or the occurrence cap is compared as far as both go */
+				const int open_end = beyond || nimp >= MAXOCC;
+				const int m = n3 < nimp - k ? n3 : nimp - k;
+				if ((open_end ? n3 < nimp - k : n3 != nimp - k) || memcmp(imp + k, imp2, sizeof(*imp) * (size_t)m)) {
+					int i;
+					for (i = 0; i < n3 && k + i < nimp && imp[k + i] == imp2[i]; i++);
+					snprintf(sig, sizeof(sig), "checkpointed/%s/%s/%s/k=%d", n3 > nimp - k ? "more" : n3 < nimp - k ? "fewer" : "other", g->shape, tm->name, k);
+					vd_viol(sig, "written out after %d occurrences and read again the task delivers %d more, the uninterrupted stream %d more (first difference at its occurrence %d)", k, n3, nimp - k, i + 1);
+					break;
+				}
+			}
+		}
+	}
 }
 
 static void
@@ -296,6 +337,7 @@ enumerate(void)
 	c.intervals = ivals;
 	nanchors = (int)vd_opt_l("anchors", 8);
 	terms_full = !strcmp(vd_opt("terms", "quick"), "full");
+	ckpt_pass = (int)vd_opt_l("ckpt", 1);
 	rg_enumerate(&c, per_rule, NULL);
 }
 
